@@ -208,19 +208,25 @@ def spec_buckets(obs_r, ll_r, lu_r, edge_lo_r, edge_hi_r, n_lower, n_upper, clos
     return zs, counts, feasible
 
 
-def spec_objective(F, counts, n, feasible=True):
-    """minus the grouped log-likelihood divided by n+1, plus the documented constant; F = cdf values at the edges"""
+def spec_objective(F, counts, n, feasible=True, with_scale=False):
+    """minus the grouped log-likelihood divided by n+1, plus the documented constant; F = cdf values at the edges.
+    `scale` = sum of the absolute values of the terms (what a relative tolerance on a floating sum refers to
+    when the terms cancel)."""
     if not feasible:
-        return INF, False
+        return (INF, False, INF) if with_scale else (INF, False)
     with np.errstate(all="ignore"):
         dF = np.diff(np.asarray(F, dtype=float))
         nonmono = bool(np.any(dF < 0))
-        tot, K = 0.0, 0.0
+        tot, K, scale = 0.0, 0.0, 0.0
         for k, d in zip(counts, dF):
             if k > 0:
-                tot += k * (math.log(d) if d > 0 else (-INF if d == 0 else float("nan")))
-                K += k * math.log((n + 1) / k)
-        return -(tot + K) / (n + 1), nonmono
+                t = k * (math.log(d) if d > 0 else (-INF if d == 0 else float("nan")))
+                c = k * math.log((n + 1) / k)
+                tot += t
+                K += c
+                scale += abs(t) + abs(c)
+        val = -(tot + K) / (n + 1)
+        return (val, nonmono, scale / (n + 1)) if with_scale else (val, nonmono)
 
 
 # ------------------------------------------------------------------------------------------- code side
@@ -413,7 +419,7 @@ def spec_side(task, out):
         zs, counts, feasible = spec_buckets(obs_r, rnd(lo, dec), rnd(hi, dec), rnd(edge_lo, dec), rnd(edge_hi, dec),
                                             n_lower, n_upper, pinned)
         p = dict(convex=convex, pinned=pinned, zs=zs, counts=counts, feasible=feasible,
-                 edge=[edge_lo, edge_hi], thetas=[], F=[], f_spec=[], nonmono=[])
+                 edge=[edge_lo, edge_hi], thetas=[], F=[], f_spec=[], nonmono=[], scale=[])
         thetas = rec["thetas"] if rec is not None else [[]]
         if rec is not None and rec.get("result_x") is not None:
             thetas = thetas + [rec["result_x"]]
@@ -424,13 +430,14 @@ def spec_side(task, out):
                 try:
                     dist = _dist(case, params, convex)
                     F = [float(v) for v in dist.cdf(np.array(zs, dtype=float))]
-                    fs, nm = spec_objective(F, counts, n, feasible)
+                    fs, nm, sc = spec_objective(F, counts, n, feasible, with_scale=True)
                 except ValueError:
-                    F, fs, nm = None, INF, False   # no such distribution (e.g. a > b)
+                    F, fs, nm, sc = None, INF, False, INF   # no such distribution (e.g. a > b)
                 p["thetas"].append(th)
                 p["F"].append(F)
                 p["f_spec"].append(fs)
                 p["nonmono"].append(nm)
+                p["scale"].append(sc)
         passes.append(p)
     out["passes"] = passes
 
